@@ -76,11 +76,16 @@ fn main() {
             let mut selectors: Vec<(Option<String>, Option<u64>)> = vec![(None, None), (Some("a".into()), None), (Some("b".into()), None), (Some("a".into()), Some(0)), (Some("c".into()), None)];
             for e in parent.iter().filter(|e| !is_msg(e)).take(2) { selectors.push((Some(e.id.clone()), None)); }
             for s in 0..=head + 1 { selectors.push((None, Some(s))); }
-            for (from_mid, from_seq) in selectors {
+            // the summary a handoff is given: text, blank text (accepted by the entry check like any text), an artifact id, nothing
+            let summaries: Vec<(Option<String>, Option<String>)> = if handoff && n <= 2 {
+                vec![(Some("md".to_string()), None), (Some("  \n\t".to_string()), None), (Some(String::new()), None), (None, Some("art".to_string())), (None, None)]
+            } else { vec![(Some("md".to_string()), None)] };
+            for summary in summaries {
+            for (from_mid, from_seq) in selectors.clone() {
                 let store = ContinuityStore { workspace_root: PathBuf, event_log: EventLog { appended: RefCell::new(Vec::new()) }, stream_cache: ContinuityStreamCache,
                     sender: Sender, next_seq: Mutex::new(HashMap::new()), parent: parent.clone() };
                 let res = if handoff {
-                    store.handoff("parent", None, (Some("md".to_string()), None), from_mid.clone(), from_seq, ("u".to_string(), "o".to_string()))
+                    store.handoff("parent", None, summary.clone(), from_mid.clone(), from_seq, ("u".to_string(), "o".to_string()))
                 } else {
                     store.branch("parent", None, from_mid.clone(), from_seq, "u".to_string(), "o".to_string())
                 };
@@ -88,6 +93,7 @@ fn main() {
                 let mut problem: Option<String> = None;
                 match &res {
                     Err(_) => { if !written.is_empty() && from_mid.is_some() && from_seq.is_some() { problem = Some("both selectors given but frames were written".into()); } }
+                    Ok(_) if handoff && summary.0.is_none() && summary.1.is_none() => { problem = Some("a handoff without any summary was accepted: its lineage frame cannot carry a resolvable summary".into()); }
                     Ok((child, cut, mid)) => {
                         if from_mid.is_some() && from_seq.is_some() { problem = Some("both selectors accepted".into()); }
                         if let (Some(m), None) = (&from_mid, from_seq) { if !parent.iter().any(|e| is_msg(e) && e.id == *m) {
@@ -119,14 +125,15 @@ fn main() {
                     else { true }
                 });
                 if let Some(p) = problem {
-                    println!("WITNESS {{\"function\": \"{}\", \"parent_frames\": {:?}, \"from_message_id\": {:?}, \"from_seq\": {:?}, \"returned\": {:?}, \"problem\": {:?}}}",
-                        if handoff { "ContinuityStore::handoff" } else { "ContinuityStore::branch" },
+                    println!("WITNESS {{\"function\": \"{}\", \"summary_markdown_and_artifact_id\": {:?}, \"parent_frames\": {:?}, \"from_message_id\": {:?}, \"from_seq\": {:?}, \"returned\": {:?}, \"problem\": {:?}}}",
+                        if handoff { "ContinuityStore::handoff" } else { "ContinuityStore::branch" }, summary,
                         parent.iter().map(|e| format!("{}:{}", e.seq, match &e.kind { EventKind::ContinuityMessageAppended { .. } => format!("msg({})", e.id),
                             EventKind::ContinuityRunSpawned { message_id, .. } => format!("spawned({message_id})"), EventKind::ContinuityRunEnded { message_id, .. } => format!("ended({message_id})"),
                             EventKind::ContinuityCreated { .. } => "created".to_string(), _ => "other".to_string() })).collect::<Vec<_>>(),
                         from_mid, from_seq, res.as_ref().ok().map(|t| (t.1, t.2.clone())), p);
                     return;
                 }
+            }
             }
         }
     }
